@@ -167,3 +167,17 @@ package introspection
 //@   at `WrapTypeFromType(t.schema, &cpy)` requires arg0 == t.schema && local(arg1)
 //@   at `WrapTypeFromType(t.schema, t.typ.Elem)` requires arg0 == t.schema && arg1 == t.typ.Elem
 //@   ensures old(t.typ) == nil ==> res0 == nil
+
+// __schema.directives and __schema.types list EVERY directive / type of the schema: each iteration over the schema's
+// map contributes exactly one name and one wrapped element (nothing is filtered out).
+//@ func (*Schema).Directives [C16]
+//@   requires s != nil && s.schema != nil
+//@   loop 1: step len(dNames) == prev(len(dNames)) + 1
+//@   at! `append(dNames, d.Name)` requires arg1 == d.Name
+//@   at! `s.directiveFromDef(d)` assume d != nil
+//@   at! `s.directiveFromDef(d)` requires arg0 == d
+//@ func (*Schema).Types [C16]
+//@   requires s != nil && s.schema != nil
+//@   loop 1: step len(typeNames) == prev(len(typeNames)) + 1
+//@   at! `append(typeNames, typ.Name)` requires arg1 == typ.Name
+//@   at! `WrapTypeFromDef(s.schema, typ)` requires arg0 == s.schema && arg1 == typ
